@@ -111,6 +111,11 @@ func vhLex(src []byte) vhLexResult {
 					r.lastPlusMinus = -1
 				}
 			case b <= ' ':
+				// white space ends a run of + or -: an odd run is a pending binary (or unary) operator
+				if r.lastPlusMinus%2 != 0 {
+					r.lastOp = true
+				}
+				r.lastPlusMinus = 0
 			default:
 				tokenAt(i)
 				r.lastOp, r.lastPlusMinus = vhIsContOp(b), 0
@@ -214,7 +219,7 @@ func vhCheckLine(line []byte) {
 		vhAssert(ref.depth <= 0, "a chunk never ends inside an unbalanced bracket")
 		if ref.depth == 0 {
 			vhAssert(!ref.lastOp, "a chunk never ends right after a binary operator or comma")
-			vhAssert(ref.lastPlusMinus == 0 || ref.lastPlusMinus == 2 || ref.lastPlusMinus == -2, "a chunk ends after + or - only when it is ++ or --")
+			vhAssert(ref.lastPlusMinus%2 == 0, "a chunk ends after + or - only when they pair up as ++ or --")
 		}
 		if ref.first < 0 || orig[ref.first] != '/' { // no Go statement starts with a division operator
 			vhAssert(firstToken == ref.first, "the offset of the first token is reported")
@@ -222,7 +227,7 @@ func vhCheckLine(line []byte) {
 	} else {
 		vhAssert(err == io.EOF || err == io.ErrUnexpectedEOF, "otherwise the reader asks for more input")
 		complete := (ref.state == vhCode || ref.state == vhLineC) && ref.depth == 0 && !ref.lastOp &&
-			(ref.lastPlusMinus == 0 || ref.lastPlusMinus == 2 || ref.lastPlusMinus == -2)
+			(ref.lastPlusMinus%2 == 0)
 		vhAssert(!complete, "a line that closes every construct it opens, and does not end in an operator, ends the chunk")
 	}
 }
@@ -317,7 +322,7 @@ func vhSpan(k int) {
 		vhReach("end")
 		return
 	}
-	open1 := !(ref1.state == vhCode || ref1.state == vhLineC) || ref1.depth > 0 || ref1.lastOp || (ref1.lastPlusMinus != 0 && ref1.lastPlusMinus != 2 && ref1.lastPlusMinus != -2)
+	open1 := !(ref1.state == vhCode || ref1.state == vhLineC) || ref1.depth > 0 || ref1.lastOp || (ref1.lastPlusMinus%2 != 0)
 	if open1 {
 		vhAssert(rd.next == 2, "a construct left open at the end of a line makes the reader take the next line")
 	}
